@@ -255,6 +255,10 @@ pub struct Cl {
     pub c2s: BTreeMap<usize, VecDeque<Bytes>>,
     /// (server entity, pre-spawned client entity, client entity despawned before arrival)
     pub pre: Vec<(Entity, Entity, bool)>,
+    /// server entity -> tick of the update message that carries its pre-spawn mapping
+    pub map_tick: BTreeMap<Entity, u32>,
+    /// mappings registered since the last tick
+    pub map_pending: Vec<Entity>,
     /// mutate index -> (tick, server frame it was built in, entities)
     /// mutate index -> messages sent with that index: (tick, server frame it was built in, entities,
     /// handed to the client by the transport). An acknowledgement only counts for messages the client got.
@@ -312,6 +316,8 @@ pub struct Sim {
     pub pending_show: Vec<(usize, u32, Entity)>,
     /// entities that were ever the target of a Link (a client may hold a placeholder for them)
     pub ever_linked: BTreeSet<Entity>,
+    /// (client, server entity) pairs pre-mapped after the entity had been referenced
+    pub repointed: BTreeSet<(usize, Entity)>,
     /// entities spawned without the replication marker that never carried it so far
     pub never_marked: BTreeSet<Entity>,
     pub snaps: BTreeMap<u32, BTreeMap<Entity, Snap>>,
@@ -426,6 +432,8 @@ impl Sim {
                     s2c: default(),
                     c2s: default(),
                     pre: vec![],
+                    map_tick: default(),
+                    map_pending: vec![],
                     inflight: default(),
                     used_idx: default(),
                     acked_frame: default(),
@@ -468,6 +476,7 @@ impl Sim {
             unmarked_once: default(),
             pending_show: vec![],
             ever_linked: default(),
+            repointed: default(),
             never_marked: default(),
             snaps: default(),
             last_tick_seen: 0,
@@ -528,6 +537,8 @@ impl Sim {
         c.s2c.clear();
         c.c2s.clear();
         c.pre.clear();
+        c.map_tick.clear();
+        c.map_pending.clear();
         c.inflight.clear();
         c.used_idx.clear();
         c.acked_frame.clear();
@@ -550,6 +561,7 @@ impl Sim {
         c.joined_late = false;
         c.delivered_reqs.clear();
         c.pre_ever.clear();
+        self.repointed.retain(|(ci, _)| *ci != i);
         self.ever_explicit.retain(|(ci, _)| *ci != i);
         self.vis_rec.retain(|(ci, _), _| *ci != i);
         self.dead_hidden.retain(|(ci, _)| *ci != i);
@@ -755,6 +767,10 @@ impl Sim {
             let snap = self.snapshot();
             for ci in 0..self.clients.len() {
                 if self.clients[ci].ent.is_some() && self.clients[ci].authorized {
+                    let pending = std::mem::take(&mut self.clients[ci].map_pending);
+                    for se in pending {
+                        self.clients[ci].map_tick.insert(se, t);
+                    }
                     let x: BTreeMap<Entity, [bool; NK]> = snap
                         .iter()
                         .filter(|(e, _)| self.expected_visible(ci, **e))
@@ -1430,13 +1446,19 @@ impl Sim {
         let unmarked: Vec<Entity> = self
             .alive()
             .into_iter()
-            .filter(|e| !self.server.world().entity(*e).contains::<Replicated>() && !self.ever_linked.contains(e) && self.never_marked.contains(e))
+            .filter(|e| !self.server.world().entity(*e).contains::<Replicated>() && self.never_marked.contains(e))
             .collect();
         let adopt = self.cfg.vis == Vis::All && !unmarked.is_empty() && self.rng.below(3) == 0;
         let se = if adopt {
             let se = unmarked[self.rng.below(unmarked.len())];
             self.server.world_mut().entity_mut(se).insert(Replicated);
             self.never_marked.remove(&se);
+            if self.ever_linked.contains(&se) {
+                // the client may already hold a placeholder for it: the mapping re-points the entity map
+                // and earlier references stay on the superseded placeholder (known finding F20)
+                self.repointed.insert((ci, se));
+                self.obs.inc("op_prespawn_adopts_referenced_entity");
+            }
             self.unmarked_once.remove(&se);
             self.remarked.insert(se);
             self.mark_struct(se);
@@ -1474,6 +1496,7 @@ impl Sim {
             self.clients[ci].app.world_mut().entity_mut(pre).despawn();
         }
         self.clients[ci].pre.push((se, pre, kill));
+        self.clients[ci].map_pending.push(se);
         self.clients[ci].pre_ever.insert((se, pre));
         self.note(format!("prespawn client{ci} {se} -> {pre} killed={kill} adopt_existing={adopt} shown_later={early}"));
         self.obs.inc("op_prespawn");
